@@ -283,6 +283,8 @@ def run(c, chk):
              'the option, the caller restores every touched location and releases what it built (the refusal analysis of C10)')
     n7 = c10.analyse(c, c08.chk_proxy(chk, {'R10.1': 'R18.7', 'R10.2': 'R18.7'}), 'R10.1', 'R10.2')
     chk.floor('R18.7 refusing paths', n7, 40)
+    # ... and the removal API on its own allocation-failure paths: a section remover that fails for want of memory has removed nothing
+    c10.analyse(c, c08.chk_proxy(chk, {'R10.1': 'R18.7', 'R10.2': 'R18.7'}), 'R10.1', 'R10.2', funcs=('cfg_opt_rmnsec', 'cfg_opt_rmtsec', 'cfg_rmnsec', 'cfg_rmtsec', 'cfg_rmsec'), alloc_paths=True)
 
     # ---- R18.4 ---------------------------------------------------------------------------------
     term = ('abort', 'exit', '_exit', '__assert_fail')
